@@ -706,7 +706,9 @@ def simplify_constrained_range(source: str) -> str:
 
         target_name = comp.target.id
 
-        conditions = set()
+        # The conditions narrow the range one after the other, so they are kept in a list: the
+        # iteration order of a set of nodes depends on where the nodes are in memory.
+        conditions = []
         ifs = comp.ifs.copy()
         while ifs:
             condition = ifs.pop()
@@ -714,7 +716,7 @@ def simplify_constrained_range(source: str) -> str:
                 ifs.extend(condition.values)
                 continue
 
-            conditions.add(condition)
+            conditions.append(condition)
 
         gt_template = (
             ast.Compare(
